@@ -76,7 +76,8 @@ class C16:
         return {'shape': shape, 'spacing': spacing,
                 'seed': rng.randrange(2 ** 31), 'dtype': dtype,
                 'optics': optics,
-                'name': rng.choice([None, 'holo', 'image0001', 'a b']),
+                'name': rng.choice([None, 'holo', 'image0001', 'a b',
+                                    'bead_5\u00b5m', 'caf\u00e9_2']),
                 'channels': channels,
                 'offset': rng.choice([1.0, 100.0, 0.0]),
                 'scale': rng.choice([0.1, 1.0, 30.0])}
